@@ -1,11 +1,49 @@
 import Driver.Util
+import Driver.C01
+import Driver.C02
+import Driver.C03
+import Driver.C04
+import Driver.C05
+import Driver.C06
+import Driver.C07
+import Driver.C08
+import Driver.C09
+import Driver.C10
+import Driver.C11
+import Driver.C12
+import Driver.C13
+import Driver.C14
+import Driver.C15
+import Driver.C16
+import Driver.C17
+import Driver.C18
 import Driver.C19
+import Driver.C20
 open Lean Driver
 
 /-- dispatch on the prefix of `op` (`c19.run` → `Driver.C19.handle`) -/
 def dispatch (op : String) (j : Json) : R Json :=
   match (op.splitOn ".").head! with
+  | "c01" => Driver.C01.handle op j
+  | "c02" => Driver.C02.handle op j
+  | "c03" => Driver.C03.handle op j
+  | "c04" => Driver.C04.handle op j
+  | "c05" => Driver.C05.handle op j
+  | "c06" => Driver.C06.handle op j
+  | "c07" => Driver.C07.handle op j
+  | "c08" => Driver.C08.handle op j
+  | "c09" => Driver.C09.handle op j
+  | "c10" => Driver.C10.handle op j
+  | "c11" => Driver.C11.handle op j
+  | "c12" => Driver.C12.handle op j
+  | "c13" => Driver.C13.handle op j
+  | "c14" => Driver.C14.handle op j
+  | "c15" => Driver.C15.handle op j
+  | "c16" => Driver.C16.handle op j
+  | "c17" => Driver.C17.handle op j
+  | "c18" => Driver.C18.handle op j
   | "c19" => Driver.C19.handle op j
+  | "c20" => Driver.C20.handle op j
   | "ping" => pure (Json.str "pong")
   | _ => throw s!"unknown op {op}"
 
